@@ -19,7 +19,10 @@ def split_root(root):
     return style, defs, back, rest, problems
 
 def dotted(s): return '.'.join(str(ord(c)) for c in s)
-def squeeze(s): return re.sub(r'>[ \t\r\n]+<', '><', s)
+def squeeze(s):
+    """remove the pretty printer's inter-element white space: a line feed and the indentation between two tags
+    (white space that is the content of a text element, e.g. the quoted text " ", has no line feed and stays)"""
+    return re.sub(r'>\n *<', '><', s)
 
 class C18(Prop):
     id = 'C18'
@@ -27,8 +30,8 @@ class C18(Prop):
     needs = ('frags', 'svg')
     rule = 'each item renders one input through the five entry points, a random switch combination, random presentation settings (incl. markup characters) and a random override size; non-trivial when the document has a drawing node'
     level_text = ('Theorems C18_document_shape / C18_switches_leave_geometry_alone / C18_presentation_settings_only_in_style / C18_override_changes_only_the_size / C18_entry_points_agree: '
-                  'the root children are style? defs? backdrop? (iff their switches) followed by drawing nodes that depend on the settings only through the scale; colours, fonts, stroke width occur only in the style node; the override entry changes only root and backdrop size; to_svg = pretty = settings(default), compressed renders the same tree. For all inputs and settings.')
-    level_note = 'the equality squeeze(pretty) = compressed is checked on the implementation outputs by the oracle and through the render correspondence of both modes, not yet proved as a lemma about render'
+                  'the root children are style? defs? backdrop? (iff their switches) followed by drawing nodes that depend on the settings only through the scale; colours, fonts, stroke width occur only in the style node; the override entry changes only root and backdrop size; to_svg = pretty = settings(default); C18_compressed_is_the_same_document: for every input the pretty and the compressed output are serialisations (XML grammar of Theory/Xml.v) of trees that differ only by text children that are empty or a line feed followed by blanks (C18_same_doc_keeps_blank_text: the relation keeps other white space). For all inputs and settings.')
+    level_note = 'the string-level form (remove a line feed and blanks between > and <) is what the oracle applies to the implementation outputs; the theorem states it on the parsed trees'
     def make(self, gen, text, rng_state):
         sw, colors, ow, oh, sc = rng_state
         f = lambda t: self.make(gen, t, rng_state)
